@@ -25,11 +25,15 @@ def proj_sfs(s):
 
 
 def proj_ids(ids):
+    """ids: strings; a basic PUSH with its constant is given as ("PUSH", value)"""
     out = []
     for i in ids:
+        if isinstance(i, (list, tuple)):
+            out.append({"id": "PUSHC", "k": 0, "c": elem(int(i[1]))})
+            continue
         m = re.fullmatch(r"(DUP|SWAP)(\d+)", i)
         if m:
-            out.append({"id": m.group(1), "k": int(m.group(2))})
+            out.append({"id": m.group(1), "k": int(m.group(2)), "c": ""})
         else:
-            out.append({"id": i, "k": 0})
+            out.append({"id": i, "k": 0, "c": ""})
     return out
